@@ -48,7 +48,11 @@
 (* With tol > 0 (sessions with arbitrary decimal values) values are rounded *)
 (* projections and are compared with that tolerance; the LFO curve is then  *)
 (* only checked for its bounds.  The sine curve is numeric: bounds, the     *)
-(* four cardinal points and half-period antisymmetry only.                  *)
+(* four cardinal points and half-period antisymmetry only.  At the very     *)
+(* instant of a jump (saw at phase 1/2, pulse at phase 0 and at its width)  *)
+(* either of the two values is accepted.  An LFO parameter whose modulator  *)
+(* was never there keeps an initial value the statement does not name: such *)
+(* an LFO is not checked.                                                   *)
 EXTENDS Integers, Sequences, FiniteSets
 
 CONSTANTS Mods, Params        \* universes of modulator / parameter ids of one session (1..k)
@@ -65,17 +69,26 @@ Huge == 1000000               \* recorded values are clamped to +-Huge by the ha
 NoVS == [k |-> "fix", v |-> 0, m |-> 0, i0 |-> 0, i1 |-> 1, o0 |-> 0, o1 |-> 0, e |-> "lin", p |-> 1]
 NoSet == [has |-> FALSE]
 
-\* Mapping: input clamped to the input range, eased, interpolated between the outputs
+\* floor(a * n / d) for 0 <= n, 0 < d, within 32 bits (|a|, d <= 2 * Big)
+MulDiv2(a, n, d) == LET n1 == n \div 256  n0 == n % 256  x == a * n1 IN
+                    (x \div d) * 256 + ((x % d) * 256 + a * n0) \div d
+RECURSIVE Gcd(_, _)
+Gcd(a, b) == IF b = 0 THEN a ELSE Gcd(b, a % b)
+PowI(b, p) == IF p = 1 THEN b ELSE IF p = 2 THEN b * b ELSE b * b * b
+\* Mapping: input clamped to the input range, eased, interpolated between the outputs.
+\* amount = (x - i0) / (i1 - i0) as a fraction in lowest terms; exact whenever amount^p has a denominator
+\* of at most 2^16 (always for a linear mapping), otherwise (arbitrary decimals) to within 3 units
 MapRef(vs, x) ==
   LET d0 == vs.i1 - vs.i0
       nn == IF d0 < 0 THEN vs.i0 - x ELSE x - vs.i0
       dd == Abs(d0)
       cn == IF nn < 0 THEN 0 ELSE IF nn > dd THEN dd ELSE nn
+      g == Gcd(dd, cn)  rn == cn \div g  rd == dd \div g
       amt == (cn * AScale) \div dd
-      eased == IF vs.p = 1 THEN amt
-               ELSE IF vs.p = 2 THEN (amt * amt) \div AScale
-               ELSE (((amt * amt) \div AScale) * amt) \div AScale
-  IN vs.o0 + ((vs.o1 - vs.o0) * eased) \div AScale
+      eased == IF vs.p = 2 THEN (amt * amt) \div AScale ELSE (((amt * amt) \div AScale) * amt) \div AScale
+  IN IF vs.p = 1 \/ rd <= (IF vs.p = 2 THEN 256 ELSE 40)
+     THEN vs.o0 + MulDiv2(vs.o1 - vs.o0, PowI(rn, vs.p), PowI(rd, vs.p))
+     ELSE vs.o0 + ((vs.o1 - vs.o0) * eased) \div AScale
 VSOk(vs) == /\ vs.k \in {"fix", "mod"} /\ vs.e \in {"lin", "in"} /\ vs.p \in 1..3
             /\ (vs.k = "mod" => vs.i0 # vs.i1 /\ vs.m \in Mods)
             /\ \A x \in {vs.v, vs.i0, vs.i1, vs.o0, vs.o1} : Abs(x) <= Big
